@@ -14,6 +14,8 @@ Facets (one per observable; each case draws a configuration AND 1..all transform
   dynamics    Dynamics.relaxation (xu / x / both; selection; cage-relative): translate / lattice / perm / swap / axes
   gyration    gyration_tensor descriptors: translate / perm / axes / rotate
   pr          participation_ratio: perm / axes / rotate
+  size_sweep  finite: every observable once at every particle number 32, 33, 51, 64, 65, 100, 101, 128, 129, 201, 257
+              (thorough: + 499..1025), relaxation also at 31..65 frames; a relabelling always among the transformations
   sizes_large thorough tier only: every observable at N = 499..1025 (S2, bond order, Hessian 190..513; clouds 1999..2049)
   samples     first frame(s) of the repository's sample dumps: gr, sq, Nnearests, cutoffneighbors, S2, tetrahedral,
               boo_3d / boo_2d, relaxation under translate / lattice / perm / swap / axes (/ dilate for gr) and compositions
@@ -65,7 +67,8 @@ CLAUSES (statement + quantifier, split; facet . assertion; class tags that show 
   c9  'all configurations'                                            d2 / d3, ortho / tri, edges-unequal, K1..K6,
       mask-full / partial / open, gas / cluster / lattice-exact / lattice-jit / critical-line (all pair vectors short in
       every Cartesian component but beyond the half cell of a tilted cell), frames1 / frames2, size-boundary-N<n>
-      (31..257 quick, 499..1025 thorough), size-boundary-bins / -nq / -k / -T, unequal masses (mass-unequal), maxcn = Nmax
+      (31..257 quick, 499..1025 thorough; sweep:<observable>:N<n> = every cell of the finite size sweep),
+      size-boundary-bins / -nq / -k / -T, cn>32 / cn>64 cut-off lists, unequal masses (mass-unequal), maxcn = Nmax
   c10 'incl. the repository's own sample trajectories'                samples / samples_large: cell:<file>:<kind>
   c11 to floating-point accuracy                                      tolerances derived from the coordinate rounding noise
       (4 ulp of the largest coordinate) divided by the shortest length the output depends on, with absolute floors
@@ -145,8 +148,8 @@ MANIFEST = {
              "include block boundaries (31..257, thorough 499..1025); call protocols include in-place reuse of the "
              "input objects, a second evaluation on the same object, optional output files, value-equal argument "
              "representations, and every returned object is re-compared bit for bit at the end of the case. Facets: "
-             "gr, sq, neighbours, boo3d, boo2d, tetrahedral, s2, hessian, dynamics, gyration, pr, sizes_large, samples, "
-             "samples_large."),
+             "gr, sq, neighbours, boo3d, boo2d, tetrahedral, s2, hessian, dynamics, gyration, pr, size_sweep, sizes_large, "
+             "samples, samples_large."),
     "note": ("No reference implementation: only relative statements are checked, so an error common to all "
              "orientations/labellings is invisible here (C03-C17 cover absolute values). Trusted base: pbt/ref/geom "
              "(used only to find items on decision boundaries, which are then not asserted) and numpy. Smooth outputs "
@@ -178,6 +181,54 @@ def describe_any(case):
     return L.describe_cloud(case) if "x" in case else C.describe(case)
 
 
+# Finite size sweep (EXTENSION_3 class 1).  Hypothesis re-uses drawn values in later examples, so a random facet meets
+# only a handful of DISTINCT boundary sizes per run; each size sees a different block length, so every (observable,
+# size) cell is enumerated once per run.  The case of a cell is the 3rd example of the observable's own strategy at
+# that fixed size under the seed (VERIF_SEED, observable, size); relabelling is always among the transformations.
+SWEEP_N = (32, 33, 51, 64, 65, 100, 101, 128, 129, 201, 257)
+SWEEP_N_THOROUGH = (499, 501, 513, 666, 1001, 1025)
+
+
+def _sweep_plan(tier):
+    big = SWEEP_N + (SWEEP_N_THOROUGH if tier != "quick" else ())
+    mid = tuple(n for n in SWEEP_N if n <= 129) + ((201, 257) if tier != "quick" else ())
+    plan = [("gr", S.gr_case, big), ("sq", S.sq_case, big),
+            ("nn", lambda sz: S.neigh_case(sz, "nn"), big), ("cutoff", lambda sz: S.neigh_case(sz, "cutoff"), big),
+            ("cutoff_type", lambda sz: S.neigh_case(sz, "cutoff_type"), big),
+            ("s2", S.s2_case, mid), ("boo2d", lambda sz: L.boo_case(2, sz), big), ("boo3d", lambda sz: L.boo_case(3, sz), mid),
+            ("tetrahedral", L.tetra_case, big), ("hessian", L.hess_case, mid), ("relaxation", L.dyn_case, big),
+            ("gyration", lambda sz: L.cloud_case(False, sz), big + (513, 1025)),
+            ("pr", lambda sz: L.cloud_case(True, sz), big + (513, 1025))]
+    for obs, maker, sizes in plan:
+        for n in sorted(set(sizes)):
+            yield obs, maker(("fixed", n)), f"N{n}"
+    for t in (31, 32, 33, 64, 65) + ((100, 101, 129) if tier != "quick" else ()):
+        yield "relaxation", L.dyn_case(("frames", t)), f"T{t}"
+
+
+def size_sweep(tier):
+    import os
+    import zlib
+    base = int(os.environ.get("VERIF_SEED", "1") or "1")
+    for obs, strategy, label in _sweep_plan(tier):
+        case = C.draw_one(strategy, zlib.crc32(f"{base}/{obs}/{label}".encode()))
+        try:
+            info = check_large(case)
+        except Exception as e:  # noqa: BLE001  (Violation or an exception raised inside the library: keep the case)
+            e.case = case
+            raise
+        info["tags"] = [f"sweep:{obs}:{label}"] + list(info.get("tags", []))
+        yield case, info
+
+
+_sweep = Facet("size_sweep", check=size_sweep, exhaustive=True, describe=describe_any,
+               rule="finite: every observable once at every particle number 32, 33, 51, 64, 65, 100, 101, 128, 129, 201, 257 "
+                    "(S2 / boo_3d / Hessian up to 129; thorough: + 499, 501, 513, 666, 1001, 1025 where the cost allows), point "
+                    "clouds also 513 and 1025, relaxation also at 31, 32, 33, 64, 65 frames; all other parameters and the "
+                    "transformation (always including a relabelling) from the observable's own strategy")
+_sweep.replay = check_large
+
+
 FACETS = [
     Facet("gr", S.gr_case(), S.check_gr, quick=240, thorough=6000, describe=C.describe, shards_quick=3,
           rule="g(r) all columns under translate/lattice/perm/swap/axes/dilate/rotate(open); " + NT),
@@ -186,7 +237,7 @@ FACETS = [
     Facet("neighbours", S.neigh_case(), S.check_neigh, quick=400, thorough=10000, describe=C.describe, shards_quick=2,
           rule="written neighbour files (N nearest / cut-off / type cut-off) under translate/lattice/perm/axes/swap/"
                "rotate(open); " + NT),
-    Facet("boo3d", L.boo_case(3), L.check_boo3, quick=160, thorough=5000, describe=C.describe, shards_quick=4,
+    Facet("boo3d", L.boo_case(3), L.check_boo3, quick=140, thorough=4000, describe=C.describe, shards_quick=4,
           rule="q_l Q_l w_l W_l and normalised, s_ij, G_l(r); fixed bond topology, under translate/lattice/perm/axes/"
                "rotate/swap; " + NT),
     Facet("boo2d", L.boo_case(2), L.check_boo2, quick=400, thorough=10000, describe=C.describe, shards_quick=2,
@@ -204,7 +255,8 @@ FACETS = [
           rule="gyration descriptors under translate/perm/axes/rotate; non-trivial: N >= 3, R_g > 0"),
     Facet("pr", L.cloud_case(True), L.check_pr, quick=400, thorough=20000, describe=L.describe_cloud,
           rule="participation ratio under perm/axes/rotate; non-trivial: 1/N < PR < 1"),
-    Facet("sizes_large", _large_case(), check_large, quick=0, thorough=640, describe=describe_any,
+    _sweep,
+    Facet("sizes_large", _large_case(), check_large, quick=0, thorough=320, describe=describe_any,
           rule="thorough tier only: every observable at particle numbers on the block boundaries 499..1025 (S2 / bond "
                "order / Hessian 190..513, point clouds 1999..2049) under its transformations",
           thorough_budget_s=3000.0),
@@ -214,7 +266,7 @@ FACETS = [
                "files, under translate/lattice/perm/swap/axes(/dilate) and their compositions with bulk numbers from "
                "numpy default_rng(k), k drawn by Hypothesis",
           quick_budget_s=240.0, thorough_budget_s=3000.0),
-    Facet("samples_large", S.sample_case(True), S.check_sample, quick=1, thorough=48, describe=S.describe_sample,
+    Facet("samples_large", S.sample_case(True), S.check_sample, quick=1, thorough=32, describe=S.describe_sample,
           rule="g(r) (coarse bins) of the first frame of the 6400..10000-particle sample dumps (incl. the 67x10.8x10.8 "
                "box and the triclinic 2D file) under translate/lattice/perm/swap/axes/dilate; thorough-tier facet, one case in quick",
           quick_budget_s=240.0, thorough_budget_s=3000.0),
